@@ -755,6 +755,8 @@ def _gen_e2e(r, tier):
 
 
 def _subject_e2e(plan):
+  import warnings
+  warnings.simplefilter("ignore")
   from paranoid_crypto.lib.randomness_tests import random_test_suite as rts
   from paranoid_crypto.lib.randomness_tests import rng
   clock = seams.SimClock(plan["clock_seed"])
